@@ -31,7 +31,11 @@ def run(ctx):
     cases = [("olivine", "olivine_A", "matrix_dislocation"), ("enstatite", "enstatite_AB", "matrix_dislocation"),
              ("olivine", "olivine_C", "frictional_yielding"), ("olivine", "olivine_A", "matrix_diffusion"),
              ("olivine", "olivine_B", "min_viscosity")]
-    for N in (2, 3):
+    if ctx.tier == "thorough":
+        cases = [(("enstatite" if f.startswith("enstatite") else "olivine"), f, r)
+                 for f in ("olivine_A", "olivine_B", "olivine_C", "olivine_D", "olivine_E", "enstatite_AB")
+                 for r in ("matrix_dislocation", "frictional_yielding", "matrix_diffusion", "min_viscosity", "max_viscosity")]
+    for N in ((2, 3) if ctx.tier == "quick" else (1, 2, 3, 4)):
         for phase, fabric, regime in cases:
             tag = f"{phase}:{fabric}:{regime}:N={N}"
             R = driver.run_update(ctx, phase=phase, fabric=fabric, regime=regime, N=N,
